@@ -146,16 +146,19 @@ Definition wf_lat (ct : ctable) : bool :=
 
 (* ---------------------------------------------------------------- fragment F2
    F1 extended with generic instances: None, Never, literals of non-generic classes, instances C[args] of
-   non-protocol classes other than bool/enums with the declared number of arguments, every argument again in F2
+   non-protocol classes (bool/enums included, with the literal contraction rule) with the declared number of arguments, every argument again in F2
    (unbounded nesting), and flat non-empty unions of such atoms. *)
 Definition gcls_ok (ct : ctable) (c : cid) : bool :=
   negb (contractible ct c) && negb (c_protocol (cls_of ct c)).
+(* bool / enum classes are admitted when non-generic (their literals can be contracted back to the class) *)
+Definition cls_ok2 (ct : ctable) (c : cid) : bool :=
+  negb (c_protocol (cls_of ct c)) && (negb (contractible ct c) || Nat.eqb (arity ct c) 0).
 Fixpoint frag2 (ct : ctable) (t : ty) : bool :=
   match t with
   | TNever => true
   | TNone => true
-  | TLit c _ => gcls_ok ct c && Nat.eqb (arity ct c) 0
-  | TInst c args => gcls_ok ct c && Nat.eqb (length args) (arity ct c) && forallb (frag2 ct) args
+  | TLit c _ => cls_ok2 ct c && Nat.eqb (arity ct c) 0
+  | TInst c args => cls_ok2 ct c && Nat.eqb (length args) (arity ct c) && forallb (frag2 ct) args
   | TUnion ts =>
       match ts with
       | [] => false
@@ -163,6 +166,33 @@ Fixpoint frag2 (ct : ctable) (t : ty) : bool :=
       end
   | _ => false
   end.
+(* family X1 = types mentioning bool / an enum class (where the single-member-enum counterexample lives) *)
+Fixpoint no_contr (ct : ctable) (t : ty) : bool :=
+  match t with
+  | TLit c _ => negb (contractible ct c)
+  | TInst c args => negb (contractible ct c) && forallb (no_contr ct) args
+  | TUnion ts => forallb (no_contr ct) ts
+  | TTuple ts => forallb (no_contr ct) ts
+  | _ => true
+  end.
+(* family X2 (finer than X1): a literal of bool / an enum whose value is not a declared member, or whose class has fewer
+   than two distinct members (the single-member-enum counterexample); lits_ok t = true means t is NOT in X2 *)
+Definition has_two (l : list Z) : bool := existsb (fun a => existsb (fun b => negb (Z.eqb a b)) l) l.
+Fixpoint lits_ok (ct : ctable) (t : ty) : bool :=
+  match t with
+  | TLit c v => negb (contractible ct c) || (existsb (Z.eqb v) (members ct c) && has_two (members ct c))
+  | TInst _ args => forallb (lits_ok ct) args
+  | TUnion ts => forallb (lits_ok ct) ts
+  | TTuple ts => forallb (lits_ok ct) ts
+  | _ => true
+  end.
+(* bool/enum classes in the table: a class below one is one itself, and proper bool/enum ancestors have no members *)
+Definition wf_contr (ct : ctable) : bool :=
+  forallb (fun p : cid * cls =>
+             (negb (existsb (contractible ct) (c_mro (snd p))) || contractible ct (fst p))
+             && forallb (fun d => Pos.eqb d (fst p) || negb (contractible ct d)
+                                  || match members ct d with [] => true | _ => false end) (c_mro (snd p)))
+          (classes ct).
 Definition atom2 (ct : ctable) (t : ty) : bool := negb (is_union t) && negb (is_never t) && frag2 ct t.
 
 (* closed argument types of generic bases are in F2 *)
@@ -171,6 +201,93 @@ Definition wf_ac (ct : ctable) : bool :=
              forallb (fun e : cid * list aspec =>
                         forallb (fun s => match s with AC t => frag2 ct t | AP _ => true end) (snd e))
                      (c_amap (snd p))) (classes ct).
+
+(* ---------------------------------------------------------------- coherence of generic bases (used by transitivity on F2)
+   amap_of c d: the arguments of ancestor d in terms of the parameters of c, as data; wf_gen checks that
+   (W2) mapping c -> d -> e equals mapping c -> e, and (W3) a parameter of variance v is only passed to a position of
+   variance v (or is invariant). *)
+Fixpoint ty_seqb (a b : ty) {struct a} : bool :=
+  match a, b with
+  | TAny, TAny => true
+  | TNever, TNever => true
+  | TNone, TNone => true
+  | TInst c xs, TInst d ys =>
+      Pos.eqb c d && (fix go (xs ys : list ty) {struct xs} : bool :=
+                        match xs, ys with
+                        | [], [] => true
+                        | x :: xs', y :: ys' => ty_seqb x y && go xs' ys'
+                        | _, _ => false
+                        end) xs ys
+  | TLit c v, TLit d w => Pos.eqb c d && Z.eqb v w
+  | TUnion xs, TUnion ys =>
+      (fix go (xs ys : list ty) {struct xs} : bool :=
+         match xs, ys with
+         | [], [] => true
+         | x :: xs', y :: ys' => ty_seqb x y && go xs' ys'
+         | _, _ => false
+         end) xs ys
+  | TTuple xs, TTuple ys =>
+      (fix go (xs ys : list ty) {struct xs} : bool :=
+         match xs, ys with
+         | [], [] => true
+         | x :: xs', y :: ys' => ty_seqb x y && go xs' ys'
+         | _, _ => false
+         end) xs ys
+  | _, _ => false
+  end.
+Definition aspec_seqb (a b : aspec) : bool :=
+  match a, b with
+  | AP i, AP j => Nat.eqb i j
+  | AC t, AC u => ty_seqb t u
+  | _, _ => false
+  end.
+Fixpoint specs_seqb (a b : list aspec) : bool :=
+  match a, b with
+  | [], [] => true
+  | x :: a', y :: b' => aspec_seqb x y && specs_seqb a' b'
+  | _, _ => false
+  end.
+Definition amap_of (ct : ctable) (c d : cid) : list aspec :=
+  if Pos.eqb c d then map AP (seq 0 (arity ct c))
+  else match c_var (cls_of ct d) with
+       | [] => []
+       | vs => match assoc_cid (c_amap (cls_of ct c)) d with
+               | Some specs => specs
+               | None => map (fun _ => AC TAny) vs
+               end
+       end.
+Definition spec_subst (outer : list aspec) (s : aspec) : aspec :=
+  match s with
+  | AP i => nth i outer (AC TAny)
+  | AC t => AC t
+  end.
+Definition variance_eqb (a b : variance) : bool :=
+  match a, b with Inv, Inv | Cov, Cov | Contra, Contra => true | _, _ => false end.
+Definition var_ok (ct : ctable) (d e : cid) : bool :=
+  forallb (fun sw : aspec * variance =>
+             match fst sw with
+             | AP i => match nth_error (c_var (cls_of ct d)) i with
+                       | Some vi => variance_eqb vi Inv || variance_eqb vi (snd sw)
+                       | None => false
+                       end
+             | AC _ => true
+             end) (combine (amap_of ct d e) (c_var (cls_of ct e))).
+Definition wf_acn (ct : ctable) : bool :=
+  forallb (fun p : cid * cls =>
+             forallb (fun e : cid * list aspec =>
+                        forallb (fun s => match s with AC t => no_contr ct t | AP _ => true end) (snd e))
+                     (c_amap (snd p))) (classes ct).
+Definition wf_gen (ct : ctable) : bool :=
+  wf_acn ct &&
+  forallb (fun c =>
+             forallb (fun d =>
+                        var_ok ct c d &&
+                        Nat.eqb (length (amap_of ct c d)) (arity ct d) &&
+                        forallb (fun s => match s with AP i => Nat.ltb i (arity ct c) | AC _ => true end) (amap_of ct c d) &&
+                        forallb (fun e => specs_seqb (amap_of ct c e)
+                                            (map (spec_subst (amap_of ct c d)) (amap_of ct d e)))
+                                (c_mro (cls_of ct d)))
+                     (c_mro (cls_of ct c))) (cids_of ct).
 
 (* promotion chains starting at c (through any ancestor) have length <= n; gives a sufficient fuel *)
 Fixpoint chain_ok (ct : ctable) (n : nat) (c : cid) : bool :=
